@@ -191,6 +191,10 @@ def run(tier, seed, agg):
         cases.append(dict(kind="history", cfg=dict(consumers=[[]], window=3, units="m", in_units="km", value_scale=Fr(1, 1000), expect_units="km", check_retention=True, unit_us=unit)))
     cases.append(dict(kind="history", cfg=dict(consumers=[[]], window=3, units="m", in_units="mm", value_scale=1000, expect_units="mm", check_retention=True, payload="masked")))
     cases.append(dict(kind="history", cfg=dict(consumers=[[], []], window=2.5 if q else 3.5, units="m", in_units="cm", value_scale=100, expect_units="cm", check_retention=True)))
+    # refused publications in the history: the array published last handed in again for a newer time (shares memory with retained data):
+    # refused, and afterwards the newest publication is still the old one (a pull for the refused time is refused, not served)
+    cases.append(dict(kind="history", cfg=dict(consumers=[[]], window=2.5 if q else 3.5, units="km", in_units="m", value_scale=1000, expect_units="m", check_retention=True, payload="grid", alias_pushes=True)))
+    cases.append(dict(kind="history", cfg=dict(consumers=[[], []], window=2, units="m", in_units="m", expect_units="m", check_retention=True, payload="masked", alias_pushes=True)))
     pairs = [(a, b) for a in FACT for b in FACT if FACT[a][1] == FACT[b][1]]
     for gname in grids():
         for pu, cu in pairs:
@@ -203,7 +207,7 @@ def run(tier, seed, agg):
     return dict(
         level="model_checking",
         rule="(1) explicit-state BFS to a fixpoint over all push/pull interleavings on a direct link (1-2 consumers, with unit conversion, scalar and gridded payload): served publication = nearest by |dt| (either neighbour at a mid-point), "
-        "refusal outside [oldest needed, newest], result = published numbers x exact conversion factor, shape (1,)+grid shape, consumer units; (2) full product payload form {float,int,list,0-d,flat,shaped,time axis,masked none/partial/full, "
+        "refusal outside [oldest needed, newest] (also after a refused publication of an array that shares memory with retained data), result = published numbers x exact conversion factor, shape (1,)+grid shape, consumer units; (2) full product payload form {float,int,list,0-d,flat,shaped,time axis,masked none/partial/full, "
         "quantity same/foreign/incompatible units, wrong shape/size} x grid {NoGrid 0-d/1-d, uniform 2x3 in 4 layouts, unstructured points} x all ordered compatible unit pairs of an 8-unit catalogue; "
         "(3) re-publication of same object / views / copy. non-trivial = product cases with conversion or a grid",
         bound=dict(lag_window_h=W, catalogue=sorted(FACT)),
